@@ -111,6 +111,10 @@ func (v DenseFloat64Vector) ReverseOrder() {
   }
 }
 func (v DenseFloat64Vector) Slice(i, j int) Vector {
+  // Go would allow to re-slice a view up to the capacity of its parent
+  if j > len(v) {
+    panic(fmt.Errorf("slice (%d:%d) out of bounds for vector of dimension %d", i, j, len(v)))
+  }
   return v[i:j]
 }
 func (v DenseFloat64Vector) Swap(i, j int) {
@@ -170,6 +174,10 @@ func (v DenseFloat64Vector) ConstAt(i int) ConstScalar {
   return Float64{&v[i]}
 }
 func (v DenseFloat64Vector) ConstSlice(i, j int) ConstVector {
+  // Go would allow to re-slice a view up to the capacity of its parent
+  if j > len(v) {
+    panic(fmt.Errorf("slice (%d:%d) out of bounds for vector of dimension %d", i, j, len(v)))
+  }
   return v[i:j]
 }
 func (v DenseFloat64Vector) AsConstMatrix(n, m int) ConstMatrix {
